@@ -592,7 +592,7 @@ impl<'s> SliceReader<'s> {
 //@@ ret Result<VisValue, Error>
 //@@ spec
     requires bounded(*old(self)),
-    ensures bytes_forwarded(*old(self), *final(self), len, visitor, r), final(self).wf(),     // [C20.reader.forward-exact] [C10.reader.forward-exact] (spelled out in bytes_forwarded above)
+    ensures bytes_forwarded(*old(self), *final(self), len, visitor, r), final(self).wf(),     // [C20.reader.forward-exact] [C10.reader.forward-exact] [C03.reader.forward-exact] (spelled out in bytes_forwarded above)
 //@@ end
 }
 impl<'s> SliceReader<'s> {
@@ -629,12 +629,12 @@ impl IoReader {
 //@@ nowhere
 //@@ param visitor : VisS
 //@@ ret Result<VisValue, Error>
-//@@ subst `visitor.visit_bytes(&__E1[..len])` => `visitor.visit_bytes_of(vstd::slice::slice_subrange(__E1.as_slice(), 0, len))` rule=R9
+//@@ subst `visitor.visit_bytes(&__E1[..len])` => `visitor.visit_bytes_of(vstd::slice::slice_subrange(__E1.as_slice(), 0, len))` rule=R9 unless `visit_bytes`
 //@@ subst `self.buf.drain(..len)` => `vec_drain_front(&mut self.buf, len)` rule=optional-R9
 //@@ subst `std::mem::take(&mut self.buf)` => `vec_take(&mut self.buf)` rule=optional-R9
 //@@ spec
     requires bounded(*old(self)),
-    ensures bytes_forwarded(*old(self), *final(self), len, visitor, r), final(self).wf(),     // [C20.reader.forward-exact] [C10.reader.forward-exact] (spelled out in bytes_forwarded above)
+    ensures bytes_forwarded(*old(self), *final(self), len, visitor, r), final(self).wf(),     // [C20.reader.forward-exact] [C10.reader.forward-exact] [C03.reader.forward-exact] (spelled out in bytes_forwarded above)
 //@@ end
 }
 
